@@ -25,7 +25,8 @@ CELLS = {
     'allowed_fee_asset': (('asset',), 'bool'), 'has_ibc_asset': (('asset',), 'bool'),
     'fees_base': (('tag',), 'opt:bv128'), 'fees_mult': (('tag',), 'bv128'),
     'validator_power': (('addr',), 'opt:bv64'), 'validator_key': (('addr',), 'bv256'), 'validator_count': ((), 'bv64'),
-    'block_height': ((), 'bv64'), 'revision_number': ((), 'bv64'),
+    'block_height': ((), 'bv64'), 'revision_number': ((), 'bv64'), 'block_timestamp': ((), 'bv128'),
+    'upgrade_change': (('ident', 'ident'), 'opt:bv64'), 'allowed_fee_asset_count': ((), 'bv64'),
 }
 KEY_BITS = {'addr': 160, 'asset': 256, 'ident': 256, 'tag': 8}
 
@@ -70,6 +71,8 @@ class World:
         v = ex.deref_val(st, v)
         if z3.is_bv(v) and v.size() == 160:
             return v
+        if z3.is_bv(v) and v.size() == 256:      # a VerificationKey: its address
+            return z3.Function('vk_address', z3.BitVecSort(256), z3.BitVecSort(160))(v)
         if isinstance(v, Obj):
             a = ex.adts.lookup(v.ty)
             if a and a['kind'] == 'struct' and 'bytes' in a['fields']:
@@ -102,6 +105,9 @@ class World:
         if z3.is_bv(v):
             return z3.ZeroExt(256 - v.size(), v) if v.size() < 256 else v
         if isinstance(v, Obj):
+            if v.kind == 'const' and 'const' in v.attrs:
+                import hashlib
+                return z3.BitVecVal(int.from_bytes(hashlib.sha256(v.attrs['const'].encode()).digest(), 'big'), 256)
             if v.kind == 'str':
                 import hashlib
                 return z3.BitVecVal(int.from_bytes(hashlib.sha256(v.attrs['str'].encode()).digest(), 'big'), 256)
@@ -156,12 +162,47 @@ class World:
     def hooks(self, extra=None):
         hs = list(extra or [])
         hs.append((re.compile(r'^<.+ as ([\w:]+::)?State(Read|Write)Ext>::(\w+)'), self.h_state_ext))
-        hs.append((re.compile(r'^<.+ as (cnidarium::)?(StateRead|StateWrite)>::|^<.+ as cnidarium::'), self.h_l0))
+        hs.append((re.compile(r'TryStreamExt>::try_collect'), self.h_try_collect))
+        hs.append((re.compile(r'(^|::)create_deposit_event$'), self.h_deposit_event))
+        hs.append((re.compile(r'^<&?(mut )?\w+ as (cnidarium::)?(StateRead|StateWrite)>::(\w+)'), self.h_l0))
+        hs.append((re.compile(r'^(std::collections::)?HashSet(::<.*>)?::(contains|len|is_empty)$'), self.h_symset))
         hs.append((re.compile(r'to_ibc_prefixed$|^<.*IbcPrefixed as From<.*>>::from$|as Into<.*Cow<.*IbcPrefixed>>>::into$|^<Cow<.*IbcPrefixed> as From<.*>>::from$'), self.h_asset_conv))
-        hs.append((re.compile(r'as AddressBytes>::(address_bytes|display_address)$|^Address(::<.*>)?::bytes$|^TransactionSignerAddressBytes::(as_bytes|from)|as From<\[u8; 20\]>>::from$'), self.h_addr_conv))
+        hs.append((re.compile(r'VerificationKey::address_bytes$|as AddressBytes>::(address_bytes|display_address)$|^Address(::<.*>)?::bytes$|^TransactionSignerAddressBytes::(as_bytes|from)|as From<\[u8; 20\]>>::from$'), self.h_addr_conv))
         return hs
 
+    def h_try_collect(self, ctx):
+        v = self.ex.deref_val(ctx.st, ctx.args[0])
+        if not isinstance(v, Obj) or v.kind != 'symstream':
+            return None
+        o = Obj('HashSet', kind='symset'); o.attrs['family'] = v.attrs['family']
+        return [(None, M.ready_future(ok(o)))]
+
+    def h_symset(self, ctx):
+        st = ctx.st
+        v = self.ex.deref_val(st, ctx.args[0])
+        if not isinstance(v, Obj) or v.kind != 'symset':
+            return None
+        fam = v.attrs['family']; op = ctx.callee.rsplit('::', 1)[1]
+        cnt, _ = self.get(st, fam + '_count', None)
+        if op == 'contains':
+            c, _ = self.get(st, fam, self.asset(st, ctx.args[1]))
+            st.pc.append(z3.Implies(c, z3.UGE(cnt, z3.BitVecVal(1, 64))))
+            return [(None, c)]
+        if op == 'len':
+            return [(None, cnt)]
+        return [(None, cnt == 0)]
+
+    def h_deposit_event(self, ctx):
+        o = Obj('tendermint::abci::Event', kind='event'); o.attrs['kind'] = 'deposit'; o.fields[('src', 0)] = self.ex.deref_val(ctx.st, ctx.args[0])
+        return [(None, o)]
+
     def h_l0(self, ctx):
+        st = ctx.st
+        meth = re.search(r'>::(\w+)', ctx.callee).group(1)
+        if meth == 'record':
+            st.world['events'].append(ctx.args[1])
+            st.log.append(('write', 'events', None, ctx.args[1], True, self.state_token(st, ctx.args[0])))
+            return [(None, ())]
         raise MirError('storage-layer (L0) call reached without a cell mapping: ' + ctx.callee[:120])
 
     def h_asset_conv(self, ctx):
@@ -346,8 +387,8 @@ class World:
         def alts(ex, s2, fut):
             b, p = self.get(s2, 'fees_base', tag)
             mult, _ = self.get(s2, 'fees_mult', tag)
-            fc = Obj(f'FeeComponents<{name}>')
-            a_ = ex.adts.lookup('FeeComponents')
+            fc = Obj(f'astria_core::protocol::fees::v1::FeeComponents<{name}>')
+            a_ = ex.adts.lookup('astria_core::protocol::fees::v1::FeeComponents')
             if not a_:
                 raise MirError('FeeComponents not in ADT table')
             fc.fields[(None, a_['fields'].index('base'))] = b
@@ -358,7 +399,7 @@ class World:
     def m_put_fees(self, ctx, a, comp):
         st = ctx.st
         tag, name = self.fee_tag(ctx.callee)
-        fc = self.ex.deref_val(st, ctx.args[1]); a_ = self.ex.adts.lookup('FeeComponents')
+        fc = self.ex.deref_val(st, ctx.args[1]); a_ = self.ex.adts.lookup('astria_core::protocol::fees::v1::FeeComponents')
         b = self.ex.read(st, ('field', fc, (None, a_['fields'].index('base'), 'u128')))
         mu = self.ex.read(st, ('field', fc, (None, a_['fields'].index('multiplier'), 'u128')))
         self.put(st, 'fees_base', tag, b, True, self.state_token(st, ctx.args[0]))
@@ -374,7 +415,20 @@ class World:
         st.log.append(('write', 'block_fees', asset, ctx.args[2], True, self.state_token(st, ctx.args[0])))
         return [(None, ok(()))]
 
+    def m_allowed_fee_assets(self, ctx, a, comp):
+        o = Obj('AllowedFeeAssetsStream', kind='symstream'); o.attrs['family'] = 'allowed_fee_asset'
+        return [(None, o)]
+
+    # upgrades ----------------------------------------------------------------------------------------------------------
+    def m_get_upgrade_change_info(self, ctx, a, comp):
+        if ctx.st.world.get('all_upgrades_active'):
+            return self.fut(ctx, a, lambda ex, s2, fut: [(None, ok(some(Obj('ChangeInfo'))))])
+        return self.getter(ctx, a, 'upgrade_change', ctx.args[1:3], lambda v, p: ok(self.opt_obj('Option<ChangeInfo>', Obj('ChangeInfo'), p)))
+
     # app -------------------------------------------------------------------------------------------------------------
+    def m_get_block_timestamp(self, ctx, a, comp):
+        return self.getter(ctx, a, 'block_timestamp', [], lambda v, p: ok(v))
+
     def m_get_block_height(self, ctx, a, comp):
         return self.getter(ctx, a, 'block_height', [], lambda v, p: ok(v))
 
@@ -382,6 +436,69 @@ class World:
         return self.getter(ctx, a, 'revision_number', [], lambda v, p: ok(v))
 
     # authority validators ----------------------------------------------------------------------------------------------
+    def m_get_block_validator_updates(self, ctx, a, comp):
+        def alts(ex, s2, fut):
+            inner = M.new_map('BTreeMap<[u8; 20], ValidatorUpdate>', [(k, ex.copy_val(v)) for k, v in s2.world['validator_updates']])
+            vs = Obj('authority::ValidatorSet'); vs.fields[(None, 0)] = inner
+            return [(None, ok(vs))]
+        return self.fut(ctx, a, alts)
+
+    def m_put_block_validator_updates(self, ctx, a, comp):
+        st = ctx.st
+        vs = self.ex.deref_val(st, ctx.args[1])
+        inner = vs.fields[(None, 0)]
+        st.world['validator_updates'] = list(inner.attrs['items'])
+        st.log.append(('write', 'validator_updates', None, None, True, self.state_token(st, ctx.args[0])))
+        return [(None, ok(()))]
+
+    def vkey_addr(self, st, vk):
+        """address of a verification key (SHA-256 based): an uninterpreted injective-enough function of the key"""
+        vk = self.ex.deref_val(st, vk)
+        f = z3.Function('vk_address', z3.BitVecSort(256), z3.BitVecSort(160))
+        return f(vk)
+
+    def m_get_validator(self, ctx, a, comp):
+        st = ctx.st
+        key = self.addr(st, ctx.args[1])
+
+        def alts(ex, s2, fut):
+            pw, p = self.get(s2, 'validator_power', key)
+            vkey, _ = self.get(s2, 'validator_key', key)
+            vu = self.validator_update_obj(ex, vkey, pw)
+            return [(None, ok(self.opt_obj('Option<ValidatorUpdate>', vu, p)))]
+        return self.fut(ctx, a, alts)
+
+    def validator_update_obj(self, ex, vkey, power, name=None):
+        a_ = ex.adts.lookup('astria_core::protocol::transaction::v1::action::ValidatorUpdate')
+        if not a_:
+            raise MirError('ValidatorUpdate not in ADT table')
+        vu = Obj('astria_core::protocol::transaction::v1::action::ValidatorUpdate')
+        vu.fields[(None, a_['fields'].index('power'))] = z3.ZeroExt(0, power) if power.size() == 32 else z3.Extract(31, 0, power)
+        vu.fields[(None, a_['fields'].index('verification_key'))] = vkey
+        return vu
+
+    def m_put_validator(self, ctx, a, comp):
+        st = ctx.st; ex = self.ex
+        vu = ex.deref_val(st, ctx.args[1])
+        a_ = ex.adts.lookup('astria_core::protocol::transaction::v1::action::ValidatorUpdate')
+        power = ex.read(st, ('field', vu, (None, a_['fields'].index('power'), 'u32')))
+        vkey = ex.read(st, ('field', vu, (None, a_['fields'].index('verification_key'), 'VerificationKey')))
+        key = self.vkey_addr(st, vkey)
+        tok = self.state_token(st, ctx.args[0])
+        self.put(st, 'validator_power', key, z3.ZeroExt(32, power), True, tok)
+        self.put(st, 'validator_key', key, vkey, True, tok)
+        return [(None, ok(()))]
+
+    def m_remove_validator(self, ctx, a, comp):
+        st = ctx.st
+        key = self.addr(st, ctx.args[1])
+        tok = self.state_token(st, ctx.args[0])
+
+        def alts(ex, s2, fut):
+            self.put(s2, 'validator_power', key, None, False, tok)
+            return [(None, ())]
+        return self.fut(ctx, a, alts)
+
     def m_get_validator_count(self, ctx, a, comp):
         return self.getter(ctx, a, 'validator_count', [], lambda v, p: ok(v))
 
